@@ -151,7 +151,8 @@ def check_case(case, ctx):
         t = rr.choice([0.0, 1.5, 7.25])
         g.s_ppo_to_ppi(time=t)
         gref.s_ppo_to_ppi(time=t)
-        ff_rows = [i for i, (k, _) in enumerate(b.s_order) if k == 'ff']
+        # state elements that nobody reads have no input slot: what is transferred to their rows is immaterial (the GPU path skips them)
+        ff_rows = [i for i, (k, _) in enumerate(b.s_order) if k == 'ff' and int(np.asarray(gref.c_locs)[gref.ppi_offset + i]) >= 0]
         if not eq('gpu_ppo_to_ppi', np.asarray(g.s)[0:3][:, ff_rows], np.asarray(gref.s)[0:3][:, ff_rows], 'state rows of s[0:3] after s_ppo_to_ppi'):
             return
         # (d) allocation size
